@@ -16,14 +16,24 @@ HARNESSES = {
     },
 }
 
+# "seconds-crossing" menu: deadlines in different whole seconds whose sub-second parts cross (1.2 s vs 0.6 s, 2.5 s vs 1.2 s ...),
+# jumps and advances that cross second boundaries, virtual clock starting at a sub-second offset
+_SX = ["--delays", "60,120,250", "--advances", "60,150", "--deltas", "600000,700000,1300000", "--clock0", "350000"]
+
 def _runs(tier):
     if tier == "quick":
         return [
+            {"harness": "c19", "args": ["--engine", "T"], "budget": 60},
+            {"harness": "c19", "args": ["--engine", "S", "--ctor", "fn", "--len", "5", "--dev", "1"] + _SX, "budget": 240},
             {"harness": "c19", "args": ["--engine", "S", "--ctor", "fn", "--len", "6", "--dev", "1"], "budget": 240},
             {"harness": "c19", "args": ["--engine", "S", "--ctor", "flag", "--len", "5", "--dev", "1"], "budget": 240},
             {"harness": "c19", "args": ["--engine", "X", "--depth", "7"], "budget": 240},
         ]
     return [
+        {"harness": "c19", "args": ["--engine", "T"], "budget": 60},
+        {"harness": "c19", "args": ["--engine", "S", "--ctor", "fn", "--len", "6", "--dev", "1"] + _SX, "budget": 600},
+        {"harness": "c19", "args": ["--engine", "S", "--ctor", "fn", "--len", "4", "--dev", "2"] + _SX, "budget": 600},
+        {"harness": "c19", "args": ["--engine", "S", "--ctor", "flag", "--len", "5", "--dev", "1"] + _SX, "budget": 600},
         {"harness": "c19", "args": ["--engine", "S", "--ctor", "fn", "--len", "6", "--dev", "2"], "budget": 2400},
         {"harness": "c19", "args": ["--engine", "S", "--ctor", "flag", "--len", "6", "--dev", "1"], "budget": 600},
         {"harness": "c19", "args": ["--engine", "S", "--ctor", "flag", "--len", "5", "--dev", "2"], "budget": 900},
